@@ -19,7 +19,7 @@ def c07(tier, seed, dst, facts):
     # ---------------------------------------------------------------- feature alphas: [αF] > [αF] on the same segment
     # quick: one plain and one inverted shape per run, rotating with VERIF_SEED; the inverted one always on a feature of a
     # place sub-node (that is where "absent sub-node matches neither" and -α interact)
-    shapes = [(f, False) for f in ([[15, 20, 11, 24, 2, 6][seed % 6]] if tier == "quick" else range(n))] + [(f, True) for f in ([[16, 20, 15, 24][seed % 4]] if tier == "quick" else per_node)]
+    shapes = [(f, False) for f in ([[15, 20, 16, 24][seed % 4], [11, 2, 6][seed % 3]] if tier == "quick" else range(n))] + [(f, True) for f in ([[16, 20, 15, 24][seed % 4]] if tier == "quick" else per_node)]
     for (f, inv_) in shapes:
         nm = "c07_feat_alpha_roundtrip_%02d%s" % (f, "_inv" if inv_ else "")
         ctor = "InvAlpha" if inv_ else "Alpha"
@@ -202,7 +202,7 @@ fn c07_var_match_context() {
 
     # ---------------------------------------------------------------- syllable variables: identical syllable only
     HDRS = "#[kani::proof]\n" + G.STUB_RS + "\n#[kani::unwind(8)]"
-    sv_shapes = [[(2, 2, True), (3, 2, False)], [(2, 3, True), (1, 2, True)]][seed % 2] if tier == "quick" else [(k, m, f) for k in (1, 2, 3) for m in (1, 2, 3) for f in (True, False)]
+    sv_shapes = [(2, 2, True), (3, 2, False), [(2, 3, True), (1, 2, True)][seed % 2]] if tier == "quick" else [(k, m, f) for k in (1, 2, 3) for m in (1, 2, 3) for f in (True, False)]
     for (k, m, fw) in sv_shapes:
         nm = "c07_syllvar_match_context_%d_%d_%s" % (k, m, "fw" if fw else "bw")
         cs = ["c%d" % i for i in range(k)]
@@ -236,7 +236,7 @@ fn @name@() {
             mid=1 if m > 1 else 0, midcheck=('match sub.context_match_syll_var(&captured, &None, &w, &mut pos2, %s) { Ok(v) => assert!(!v, "role=syllable-variable-matches-mid-syllable"), Err(_) => assert!(false, "role=unexpected-error") }' % ("true" if fw else "false")) if m > 1 else "",
             cov="same" if k == m else "true"), shared=[G.SUBRULE_SHARED], functions=["SubRule::context_match_syll_var", "VecDeque<Segment>::eq/clone/reverse", "Word::in_bounds"],
             symbolic="%d + %d bundles, both stresses, both tones" % (k, m), shape="captured syllable of %d, word syllable of %d, %s" % (k, m, "forwards" if fw else "backwards"), unwind=8, stubs=STUBS, weight=3))
-    for (k, m) in ([[(2, 2)], [(2, 3)]][seed % 2] if tier == "quick" else [(1, 1), (1, 2), (2, 1), (2, 2), (2, 3), (3, 2), (3, 3)]):
+    for (k, m) in ([(2, 2), (2, 3)] if tier == "quick" else [(1, 1), (1, 2), (2, 1), (2, 2), (2, 3), (3, 2), (3, 3)]):
         nm = "c07_syllvar_match_input_%d_%d" % (k, m)
         cs = ["c%d" % i for i in range(k)]
         ws = ["w%d" % i for i in range(m)]
@@ -277,9 +277,6 @@ fn c07_twin_reach() {
 }
 """), shared=[G.SUBRULE_SHARED], functions=["SubRule::match_stress"], symbolic="-", shape="assert(false) twin", expect="fail", unwind=unwind, stubs=STUBS))
 
-    if tier == "quick":
-        drop = "c07_var_capture_input" if seed % 2 == 0 else "c07_var_capture_context"
-        hs = [h for h in hs if h["name"] != drop]
     return {
         "harnesses": hs, "cap_s": 900 if tier == "quick" else 2400, "jobs": 8,
         "bounds": ["unwind %d; hashbrown/SipHash loops bounded to 3 through --unwindset (ids read from this build), unwinding assertions on" % unwind,
